@@ -546,6 +546,45 @@ Theorem frame_len : forall uo frames,
 Proof. exact frame_len_l. Qed.
 Print Assumptions frame_len.
 
+(* SingleInstanceDataset in both variants (C18 F181; `fixedS` detected per run from `ds.max_instances`):
+   fixedS = false pads like the other frame-level classes [_def: single_sample false = frame_sample];
+   fixedS = true uses max_instances = 1.  The row theorem holds for BOTH values; without padding the sample
+   holds exactly the label rows, and a second dataset over the same labels returns identical samples *)
+Theorem single_sample_unfixed : forall uo s frames k,
+  single_sample false uo s frames k = frame_sample uo s frames k.
+Proof. exact single_sample_unfixed_l. Qed.
+Print Assumptions single_sample_unfixed.
+
+Theorem single_sample_defined : forall fixedS uo s frames k,
+  (k < length (lf_idx_list (ds_frames uo frames)))%nat <-> single_sample fixedS uo s frames k <> None.
+Proof. exact single_sample_defined_l. Qed.
+Print Assumptions single_sample_defined.
+
+Theorem single_sample_rows : forall fixedS uo s frames k rows n,
+  single_sample fixedS uo s frames k = Some (rows, n) ->
+  exists f, nth_error (lf_idx_list (ds_frames uo frames)) k = Some f /\ (f < length frames)%nat /\
+    let labs := filter nonempty (considered uo (nth f frames [])) in
+    n = length labs /\ (0 < n)%nat /\
+    (forall j lab, nth_error labs j = Some lab -> nth_error rows j = Some (map (scale_kp s) lab)) /\
+    (forall j row, (n <= j)%nat -> nth_error rows j = Some row -> all_missing row = true).
+Proof. exact single_sample_rows_l. Qed.
+Print Assumptions single_sample_rows.
+
+Theorem single_sample_fixed_no_padding : forall uo s frames k rows n,
+  single_sample true uo s frames k = Some (rows, n) -> length rows = n.
+Proof. exact single_sample_fixed_no_padding_l. Qed.
+Print Assumptions single_sample_fixed_no_padding.
+
+Theorem single_sample_unfixed_pads : exists uo s frames k rows n,
+  single_sample false uo s frames k = Some (rows, n) /\ length rows <> n.
+Proof. exact single_sample_unfixed_pads_l. Qed.
+Print Assumptions single_sample_unfixed_pads.
+
+Theorem second_dataset_single_same : forall b uo s frames k,
+  single_sample true uo s (labels_after b uo frames) k = single_sample true uo s frames k.
+Proof. exact second_dataset_single_same_l. Qed.
+Print Assumptions second_dataset_single_same.
+
 (* CenteredInstanceDataset: sample k is cut around the k-th non-empty considered
    instance — the row `_fill_cache` takes from the stacked (rebound) frame is the
    instance `_get_instance_idx_list` enumerated (one index space) *)
